@@ -1604,9 +1604,27 @@ func RulePA1(c *Ctx) {
 	notationT := c.Named("notation", "SchemaNotation")
 	n := 0
 	perFn := map[*types.Func]int{}
+	// work list of (call site, index of the argument that carries the schema): the calls of
+	// the expander outside its own recursion and, when such a call sits in a wrapper that
+	// merely forwards its own parameter, the calls of that wrapper (two levels)
+	type job struct {
+		cs    callSite
+		arg   int
+		depth int
+	}
+	var jobs []job
 	for _, cs := range c.callSitesOf(exp) {
+		if caller := declObj(cs); caller != nil && !inner[caller] {
+			jobs = append(jobs, job{cs, 0, 0})
+		}
+	}
+	var leafSites []callSite
+	for len(jobs) > 0 {
+		jb := jobs[0]
+		jobs = jobs[1:]
+		cs := jb.cs
 		caller := declObj(cs)
-		if caller == nil || inner[caller] {
+		if jb.arg >= len(cs.Call.Args) {
 			continue
 		}
 		n++
@@ -1614,12 +1632,13 @@ func RulePA1(c *Ctx) {
 		key := fmt.Sprintf("%s#%d", c.P.DeclName(cs.Decl), perFn[caller])
 		info := cs.Pk.TypesInfo
 		cf := c.CFG(cs.Pk, cs.Body)
+		arg := cs.Call.Args[jb.arg]
 		bad := ""
 		for _, fa := range cf.FactsAt(cs.Call) {
 			if fa.Derived {
 				continue
 			}
-			if !pa1Allowed(info, cf, fa, notationT) || !pa1NilOnPrefix(info, cf, fa, cs.Call.Args[0]) {
+			if !pa1Allowed(info, cf, fa, notationT) || !pa1NilOnPrefix(info, cf, fa, arg) {
 				bad = fmt.Sprintf("%s is %v", types.ExprString(fa.Expr), fa.Truth)
 				break
 			}
@@ -1629,6 +1648,19 @@ func RulePA1(c *Ctx) {
 		} else {
 			sc.Violation(key, c.P.Pos(cs.Call.Pos()), "the expansion of this kind of declared schema is conditional on its content ("+bad+"): a declaration that the filter skips is expanded only when another declaration inherits from it, so adding or deleting that other declaration changes this one's entry")
 		}
+		// a wrapper: the schema argument is rooted at a parameter of the enclosing function
+		root := cfgx.RootObj(info, cf.Resolve(arg))
+		pidx := -1
+		if cs.Lit == nil {
+			pidx = paramIndexOf(info, cs.Decl, root)
+		}
+		if pidx >= 0 && jb.depth < 2 && caller != nil && !c.usedAsValue(caller) {
+			for _, up := range c.callSitesOf(caller) {
+				jobs = append(jobs, job{up, pidx, jb.depth + 1})
+			}
+			continue
+		}
+		leafSites = append(leafSites, cs)
 	}
 	if n == 0 {
 		sc.Undecided("sites", "-", "no top-level call of the expander found")
@@ -1686,77 +1718,135 @@ func RulePA1(c *Ctx) {
 		})
 	}
 	// order inside the stage: the pass over the user types comes first, so that every type is
-	// expanded in its own right (with its own used-type set) before anything uses it as a base
-	var utSite *callSite
-	var others []callSite
-	for _, cs := range c.callSitesOf(exp) {
-		cs := cs
-		caller := declObj(cs)
-		if caller == nil || inner[caller] {
-			continue
+	// expanded in its own right (with its own used-type set) before anything uses it as a base.
+	// Passes = functions of core that reach the expander from outside its recursion; the one
+	// over the user types is the one that iterates catalog.UserTypes.
+	reachesExp := map[*types.Func]bool{}
+	var reach func(f *types.Func, depth int) bool
+	reach = func(f *types.Func, depth int) bool {
+		if f == exp {
+			return true
 		}
-		overTypes := false
-		ast.Inspect(cs.Decl.Body, func(x ast.Node) bool {
+		if v, ok := reachesExp[f]; ok {
+			return v
+		}
+		fd := c.P.Decl(f)
+		if fd == nil || depth > 4 || c.P.PkgOfDecl(fd) != pk || inner[f] {
+			return false
+		}
+		reachesExp[f] = false
+		res := false
+		for _, g := range refsFuncs(pk.TypesInfo, fd.Body) {
+			if g != f && reach(g, depth+1) {
+				res = true
+			}
+		}
+		reachesExp[f] = res
+		return res
+	}
+	iteratesUserTypes := func(fd *ast.FuncDecl) bool {
+		hit := false
+		ast.Inspect(fd.Body, func(x ast.Node) bool {
 			if call, ok := x.(*ast.CallExpr); ok {
-				if f := Callee(cs.Pk.TypesInfo, call); f != nil && f.Name() == "Each" {
+				if f := Callee(pk.TypesInfo, call); f != nil && f.Name() == "Each" {
 					if rsel, ok := ast.Unparen(Recv(call)).(*ast.SelectorExpr); ok && rsel.Sel.Name == "UserTypes" {
-						overTypes = true
+						hit = true
 					}
 				}
 			}
 			return true
 		})
-		if overTypes {
-			utSite = &cs
-		} else {
-			others = append(others, cs)
+		return hit
+	}
+	nStages := 0
+	c.P.Funcs(func(p *pkgT, sfd *ast.FuncDecl) {
+		if p != pk {
+			return
 		}
-	}
-	if utSite == nil {
-		sc.Undecided("order", "-", "the pass that expands the user types themselves was not found")
-		return
-	}
-	utFn := declObj(*utSite)
-	for _, stage := range c.callSitesOf(utFn) {
-		cf := c.CFG(stage.Pk, stage.Body)
-		info := stage.Pk.TypesInfo
-		late := ""
-		ast.Inspect(stage.Body, func(x ast.Node) bool {
+		info := pk.TypesInfo
+		// a stage: calls at least three different passes
+		var passCalls []*ast.CallExpr
+		var utCall *ast.CallExpr
+		distinct := map[*types.Func]bool{}
+		inspectNoLit(sfd.Body, func(x ast.Node) bool {
 			call, ok := x.(*ast.CallExpr)
-			if !ok || call == stage.Call {
+			if !ok {
 				return true
 			}
 			g := Callee(info, call)
-			isOther := false
-			for _, o := range others {
-				if declObj(o) == g {
-					isOther = true
-				}
-			}
-			if !isOther {
+			gd := c.P.Decl(g)
+			if g == nil || gd == nil || inner[g] || g == exp || !reach(g, 0) {
 				return true
+			}
+			distinct[g] = true
+			passCalls = append(passCalls, call)
+			if iteratesUserTypes(gd) {
+				utCall = call
+			}
+			return true
+		})
+		if len(distinct) < 3 {
+			return
+		}
+		nStages++
+		key := "order:" + c.P.DeclName(sfd)
+		if utCall == nil {
+			sc.Undecided(key, c.P.Pos(sfd.Pos()), "the pass that expands the user types themselves was not found among the passes of this stage")
+			return
+		}
+		cf := c.CFG(pk, sfd.Body)
+		late := ""
+		for _, call := range passCalls {
+			if call == utCall {
+				continue
 			}
 			before := false
 			cf.Before(call, func(nd ast.Node) {
 				ast.Inspect(nd, func(y ast.Node) bool {
-					if y == ast.Node(stage.Call) {
+					if y == ast.Node(utCall) {
 						before = true
 					}
 					return true
 				})
 			})
 			if !before {
-				late = g.Name() + " at " + c.P.Pos(call.Pos())
+				late = types.ExprString(call.Fun) + " at " + c.P.Pos(call.Pos())
 			}
-			return true
-		})
-		key := "order:" + c.P.DeclName(stage.Decl)
-		if late == "" {
-			sc.Holds(key, c.P.Pos(stage.Call.Pos()), "the user types are expanded before every other kind of declared schema")
-		} else {
-			sc.Violation(key, c.P.Pos(stage.Call.Pos()), "another kind of declared schema is expanded ("+late+") before the pass over the user types: a base type is then expanded on first use, with the used-type set of whichever declaration got there first, so that declaration's usedUserTypes depends on the order of declarations")
 		}
+		if late == "" {
+			sc.Holds(key, c.P.Pos(utCall.Pos()), "the user types are expanded before every other kind of declared schema")
+		} else {
+			sc.Violation(key, c.P.Pos(utCall.Pos()), "another kind of declared schema is expanded ("+late+") before the pass over the user types: a base type is then expanded on first use, with the used-type set of whichever declaration got there first, so that declaration's usedUserTypes depends on the order of declarations")
+		}
+	})
+	if nStages == 0 {
+		sc.Undecided("order", "-", "no stage function calling the allOf passes found")
 	}
+	_ = leafSites
+}
+
+// refsFuncs lists the functions a body refers to: called, or used as a value (a method
+// value handed to an iterator).
+func refsFuncs(info *types.Info, body *ast.BlockStmt) []*types.Func {
+	seen := map[*types.Func]bool{}
+	var out []*types.Func
+	ast.Inspect(body, func(n ast.Node) bool {
+		var id *ast.Ident
+		switch x := n.(type) {
+		case *ast.Ident:
+			id = x
+		case *ast.SelectorExpr:
+			id = x.Sel
+		}
+		if id != nil {
+			if f, ok := info.ObjectOf(id).(*types.Func); ok && !seen[f] {
+				seen[f] = true
+				out = append(out, f)
+			}
+		}
+		return true
+	})
+	return out
 }
 
 // pa1NilOnPrefix: a nil test in a guard of the expander call may only look at the access
